@@ -155,6 +155,8 @@ def composites(at):
     hs = C("haskey", k="a", cs=[TN("string")])
     mk = C("mayhavekey", k="b", cs=[TN("int"), TN("string")])
     hc = C("haskey", k="c", cs=[TN("int")])
+    # key constraints WITHOUT a type (the type is optional: presence only) - alone and as the names of no-other-keys
+    out += [C("haskey", k="a"), C("mayhavekey", k="b"), C("nok", cs=[C("haskey", k="a"), C("mayhavekey", k="b")]), C("nok", cs=[C("mayhavekey", k="a")])]
     out += [C("nok"), C("nok", cs=[hk]), C("nok", cs=[hk, mk]), C("nok", cs=[hs, mk]), C("nok", cs=[mk]), C("nok", cs=[hk, hc]), C("nok", cs=[hk, mk, hc]), C("nok", cs=[mk, hc, hk])]
     for g in (TN("int"), TN("string"), TY("bool", C("istrue")), C("istruthy"), TY("int", C("gt", n=0))):
         for c in (C("positive"), C("lengt", n=0), TN("int"), C("in", vs=[I(2), S("y")])):
